@@ -47,7 +47,7 @@ type Config struct {
 func defaultConfig() Config {
 	return Config{MaxInstr: 3_000_000, MaxDecisions: 20000, MaxDepth: 400, MaxAlloc: 1 << 20, MaxFork: 64, MaxSymIndex: 512,
 		MaxPaths: 5_000_000, MaxGoroutines: 8, MaxSchedSteps: 2000, Preempt: 2, Race: true, MapOrder: "two", Workers: 16,
-		QueryTimeoutMs: 8000, Params: map[string]int64{}, MaxViolations: 50, Witnesses: 12, WitnessEvery: 37, MaxCache: 3000000, FallbackTimeoutS: 120, XCheckEvery: 23, XCheckMax: 12}
+		QueryTimeoutMs: 8000, Params: map[string]int64{}, MaxViolations: 50, Witnesses: 12, WitnessEvery: 37, MaxCache: 3000000, FallbackTimeoutS: 120, XCheckEvery: 23, XCheckMax: 2}
 }
 
 type Explorer struct {
